@@ -225,6 +225,55 @@ func compositions(r *lib.Report, tier string) (int64, int64, []interface{}) {
 			}
 		}
 	}
+	// the value a MonadIO carries is opaque to it: Just(v) for the payload table - and for a MonadIO as a
+	// value - yields exactly v from Eval, delivers exactly v once to OnNext, and Just(v).FlatMap(f) is f(v)
+	{
+		inner := fpgo.MonadIO.Just(5)
+		pay := append(lib.Payloads(), inner)
+		show := func(v interface{}) string {
+			if m, ok := v.(*fpgo.MonadIODef[interface{}]); ok {
+				return fmt.Sprintf("MonadIO@%p", m)
+			}
+			return lib.Show(v)
+		}
+		for _, v := range pay {
+			v := v
+			trans++
+			states++
+			msg := ""
+			p := lib.Catch(func() {
+				j := fpgo.MonadIO.Just(v)
+				if got := show(j.Eval()); got != show(v) {
+					msg = fmt.Sprintf("Just(%s).Eval() = %s", show(v), got)
+					return
+				}
+				var seen []string
+				j.Subscribe(fpgo.Subscription[interface{}]{OnNext: func(x interface{}) { seen = append(seen, show(x)) }})
+				if fmt.Sprint(seen) != fmt.Sprint([]string{show(v)}) {
+					msg = fmt.Sprintf("Just(%s).Subscribe delivered %v", show(v), seen)
+					return
+				}
+				var fArg []string
+				out := j.FlatMap(func(x interface{}) *fpgo.MonadIODef[interface{}] {
+					fArg = append(fArg, show(x))
+					return fpgo.MonadIO.Just("f-result")
+				}).Eval()
+				if fmt.Sprint(fArg) != fmt.Sprint([]string{show(v)}) || show(out) != show("f-result") {
+					msg = fmt.Sprintf("Just(%s).FlatMap(f): f was applied to %v and the result is %s", show(v), fArg, show(out))
+				}
+				g := fpgo.MonadIONewGenerics(func() interface{} { return v })
+				if got := show(g.FlatMap(func(x interface{}) *fpgo.MonadIODef[interface{}] { return fpgo.MonadIO.Just(x) }).Eval()); got != show(v) {
+					msg = fmt.Sprintf("New(-> %s).FlatMap(Just).Eval() = %s", show(v), got)
+				}
+			})
+			if p != "" {
+				msg = "panic: " + p
+			}
+			if msg != "" {
+				r.Violation("C11|payload|value", msg, map[string]interface{}{"value": show(v)})
+			}
+		}
+	}
 	return states, trans, samples
 }
 
